@@ -1102,6 +1102,30 @@ func (a *Act) loopHead(b *ssa.BasicBlock, ins []edgeIn, backs []*ssa.BasicBlock,
 		if ai, ok := a.autoInvFor(phi, b, backs); ok {
 			lc.auto = append(lc.auto, ai)
 		}
+		// range-over-slice index: the header tests index+1 < n with n computed before the loop: index < n as well
+		// (n >= 0: it is a len())
+		if phi.Comment == "rangeindex" {
+			for _, in := range b.Instrs {
+				cmp, ok := in.(*ssa.BinOp)
+				if !ok || cmp.Op != token.LSS {
+					continue
+				}
+				inc, ok := cmp.X.(*ssa.BinOp)
+				if !ok || inc.Op != token.ADD || inc.X != ssa.Value(phi) {
+					continue
+				}
+				if k, ok := constInt(inc.Y); !ok || k.Int64() != 1 {
+					continue
+				}
+				if call, ok := cmp.Y.(*ssa.Call); ok {
+					if bi, ok := call.Call.Value.(*ssa.Builtin); ok && bi.Name() == "len" {
+						if n, bound := a.env[cmp.Y]; bound {
+							lc.auto = append(lc.auto, autoInv{phi, "<", n, "rangeindex < len"})
+						}
+					}
+				}
+			}
+		}
 	}
 	p0 := a.pos(loopPos(b))
 	lname := fmt.Sprintf("%sloop%d", a.path, idx)
